@@ -393,6 +393,10 @@ func crashCmd(out *cq.Out, seed uint64, tier string) {
 		}
 		out.Case(fmt.Sprintf("rk:%d", t), acked > 3)
 		out.Count("raft_kill_acked_events", int(acked))
+		if !rec && (strings.Contains(o2, "address already in use") || strings.Contains(o2, "bind:")) {
+			out.Count("raft_kill_skipped_infrastructure", 1) // another process took the port while the node was down
+			continue
+		}
 		if !rec || err != nil {
 			out.Violate("C07:restart-failed", fmt.Sprintf("the node killed with SIGKILL after %d acknowledged events did not come back: %.300s", acked, o2), desc)
 			continue
